@@ -97,10 +97,10 @@ def cell_specs(seed, group_index, n):
     return [
         ("c0", "compile", {"hashseed": 0, "order": list(range(n)), "sub": "a"}),
         ("c1-hashseed+reversed", "compile", {"hashseed": hs[group_index % 2], "order": list(range(n))[::-1], "sub": "a"}),
-        ("c2-hashseed+permuted+dir", "compile", {"hashseed": hs[4] if group_index % 2 else hs[3], "order": list(perm),
-                                                  "sub": "deeper/nested/dir"}),
-        ("c3-fresh-process", "compile", {"hashseed": hs[2], "order": [perm[0], perm[-1]] if n > 1 else [0], "sub": "a",
-                                         "isolated": True}),
+        ("c2-hashseed+permuted+dir+malloc", "compile", {"hashseed": hs[4] if group_index % 2 else hs[3], "order": list(perm),
+                                                  "sub": "deeper/nested/dir", "malloc": True}),
+        ("c3-fresh-process+malloc", "compile", {"hashseed": hs[2], "order": [perm[0], perm[-1]] if n > 1 else [0], "sub": "a",
+                                         "isolated": True, "malloc": True}),
         ("z0", "cythonize", {"hashseed": 0, "order": list(range(n)), "sub": "a", "nthreads": 0}),
         ("z1-hashseed+nthreads4", "cythonize", {"hashseed": hs[(group_index + 1) % 2], "order": list(range(n))[::-1],
                                                  "sub": "a", "nthreads": 4}),
@@ -126,6 +126,10 @@ def run_cell(root, mods, family, cfg, timeout=1500):
     env["PYTHONHASHSEED"] = str(cfg["hashseed"])
     env["PYTHONPATH"] = os.environ["CYVERIF_VIEW"]
     env["PYTHONDONTWRITEBYTECODE"] = "1"
+    if cfg.get("malloc"):
+        # system allocator instead of pymalloc: object addresses (= default hashes of objects kept in sets / used
+        # as dict keys) change completely, which exposes id()-ordered emission
+        env["PYTHONMALLOC"] = "malloc"
     try:
         p = subprocess.run([sys.executable, CELL, jobp], env=env, cwd=d, timeout=timeout,
                            stdout=subprocess.PIPE, stderr=subprocess.STDOUT, text=True, errors="replace")
@@ -158,15 +162,19 @@ def first_diff(dir_a, dir_b, files_a, files_b):
             with open(os.path.join(dir_b, fn), errors="replace") as f:
                 lb = f.read().split("\n")
         except OSError:
-            return fn, 0, "<file missing in one cell>", ""
+            return fn, 0, "<file missing in one cell>", "", ""
         for i, (x, y) in enumerate(zip(la, lb)):
             if x != y:
-                return fn, i + 1, x[:200], y[:200]
-        return fn, min(len(la), len(lb)) + 1, "<length %d>" % len(la), "<length %d>" % len(lb)
-    return None, 0, "", ""
+                # the construct is named from a small window: the first differing line is often a blank or a comment
+                return fn, i + 1, x[:200], y[:200], " ".join(la[i:i + 8] + lb[i:i + 8])
+        return fn, min(len(la), len(lb)) + 1, "<length %d>" % len(la), "<length %d>" % len(lb), ""
+    return None, 0, "", "", ""
 
 
-def line_kind(a, b):
+def line_kind(a, b, window=""):
+    m = re.search(r"__pyx_ctuple|__pyx_scope_struct|__pyx_fuse|__pyx_vtab", window)
+    if m:
+        return m.group(0)
     for text in (a, b):
         m = re.search(r"__pyx_[a-zA-Z]+_|__Pyx_[A-Za-z]+|Py[A-Z][A-Za-z]+_[A-Za-z]+", text)
         if m:
@@ -249,8 +257,8 @@ def run(ctx):
                 if a["status"] != b["status"]:
                     kind, what = "status", "baseline %s: %s, cell %s: %s" % (bname, a["status"], cname, b["status"])
                 else:
-                    fn, ln, la, lb = first_diff(bdir, d, a["files"], b["files"])
-                    kind = line_kind(la, lb)
+                    fn, ln, la, lb, window = first_diff(bdir, d, a["files"], b["files"])
+                    kind = line_kind(la, lb, window)
                     what = "%s line %d differs: baseline %s %r vs cell %s %r" % (fn, ln, bname, la, cname, lb)
                 cause = "undiagnosed"
                 if ndiag < 3:
@@ -271,7 +279,7 @@ def run(ctx):
     ctx.rule = ("corpus = Hypothesis-generated detmods .pyx modules (names, constants, cdef classes, fused functions, closures, cimports), "
                 "pyprog batches (16 functions), synprog batches (5 programs) and a seeded sample of tests/run files, shuffled into groups "
                 "of 8; each group compiled in cells c0 (Main.compile, hash seed 0), c1 (other hash seed, reversed order, same process), "
-                "c2 (other hash seed, permuted order, other absolute dir), c3 (two modules, one fresh process image each), z0 "
+                "c2 (other hash seed, permuted order, other absolute dir, PYTHONMALLOC=malloc), c3 (two modules, one fresh process image each, PYTHONMALLOC=malloc), z0 "
                 "(cythonize nthreads=0, hash seed 0), z1 (cythonize nthreads=4, other hash seed, reversed list); one evaluation per "
                 "(module, non-baseline cell) comparing status and bytes of all generated files with the family baseline. non-trivial = "
                 "module compiles and has >= 20 distinct interned/constant cnames in its C file or >= 2 classes; distinct by "
@@ -293,6 +301,6 @@ def replay(ctx, case):
         return False, "identical outputs: %s" % json.dumps(ra)[:200]
     if ra is None or rb is None or ra["status"] != rb["status"]:
         return True, "status differs: %s vs %s" % (ra, rb)
-    fn, ln, la, lb = first_diff(da, db, ra["files"], rb["files"])
+    fn, ln, la, lb, _ = first_diff(da, db, ra["files"], rb["files"])
     return True, "%s line %d: hash seed %s gives %r, hash seed %s gives %r" % (
         fn, ln, case["base_cfg"]["hashseed"], la, case["cell_cfg"]["hashseed"], lb)
